@@ -243,12 +243,86 @@ def random_stream(ctx, order, ntrees, autoref):
                 import re
                 toks = re.findall(r"[A-Za-z_][A-Za-z0-9_'.]*|[(),~]", text)
                 r = M.op('add_expr', Spellings(toks))
+                from ..impl import Text
+                r2 = M.op('add_expr_text', Text(text))     # the printed text itself
+                if r2 != sgn * u:
+                    ctx.violation('C05:roundtrip', f'add_expr(to_expr({sgn * u})) = {r2} (raw text)', M.case())
                 ctx.case(('roundtrip', order, text), abs(u) != 1)
                 ctx.count('roundtrip')
                 if r != sgn * u:
                     ctx.violation('C05:roundtrip', f'add_expr(to_expr({sgn * u})) = {r}', M.case())
     M.check_table('C05:table')
     ctx.sample(dict(stream=s.label, first_lines=s.lines[:6]))
+
+
+SEPS = ['', '', ' ', '  ', '\t', '\n', ' \n ', ' (* c *) ', '(**)', ' \\* to the end\n', '(* a \\* b *)']
+
+
+def glue(rng, sp):
+    """a raw text for the token spellings: random separators, also none at all where the
+    neighbouring spellings stay apart (two names, a name and a number, and operator
+    characters that would merge into another operator need a real separator)"""
+    out = []
+    for i, t in enumerate(sp):
+        out.append(t)
+        if i + 1 == len(sp):
+            break
+        n = sp[i + 1]
+        sep = rng.choice(SEPS)
+        alnum = lambda c: c.isalnum() or c in "_'."  # noqa: E731
+        if sep in ('', '(**)') and (alnum(t[-1]) and alnum(n[0])):
+            sep = ' '
+        if sep == '' and not (alnum(t[-1]) or alnum(n[0])) and t[-1] not in '(),' and n[0] not in '(),':
+            # two operator spellings next to each other: keep them apart half of the time only
+            # (glued operators are the interesting inputs; both sides must agree on them)
+            if rng.random() < 0.5:
+                sep = ' '
+        out.append(sep)
+    return ''.join(out)
+
+
+def text_stream(ctx, order, ntrees):
+    """raw text: spacing, both comment forms, glued tokens; tokens, syntax tree, result and
+    state compared with the model's character-level lexer"""
+    from ..impl import Text
+    M = Mgr(ctx, f'raw text order={order}', N, order)
+    rng = ctx.rng
+    s = M.s
+    for _ in range(ntrees):
+        tree = rand_tree(rng, rng.randint(1, 4), [])
+        e = value(tree)
+        sp = spell(tree, rng, rng.random() < 0.5)
+        text = glue(rng, sp)
+        le = s.lex_text(text)
+        pe = s.parse_text(text)
+        r = M.op('add_expr_text', Text(text))
+        res = s.last_result()
+        ctx.case(('text', order, text), e not in (0, FULL))
+        ctx.count('text')
+        canon = s.parse(sp)      # the tree of the spaced spelling
+        if pe == canon:
+            # the text reads as the formula it was made from: it must mean the same
+            if not res.startswith('ok:'):
+                ctx.violation('C05:rejected', f'add_expr rejected {text!r}', M.case())
+            elif M.tt(r) != e:
+                ctx.violation('C05:wrong-meaning', f'{text!r} denotes {M.tt(r):#x}, documented {e:#x}', M.case())
+        else:
+            ctx.count('text-glued-differently')
+    # malformed / adversarial texts: outcomes must agree
+    for text in ['', '   ', 'a<-b', '(*)', 'a (* open', 'a = > b', 'a $ b', '1a', 'a!b', "a'b", 'a \\*', '\\* only',
+                 'v0&&&v1', 'v0|||v1', 'v0=>>v1', 'v0<=>=>v1', 'v0--v1', 'v0->-v1', 'v0/\\/\\v1', 'v0\\/\\/v1',
+                 'itex', 'Truea', 'ite (v0,v1,v2)', 'v0\n\n&\nv1', '(* (* *) v0', 'v0 (* *) *)', '@', '@ 1', '@-1', '@- 1',
+                 'v0 \\A v1', '\\Av0:v0', '\\E v0,:v0', '\\S v0/v1 v0', 'v0 # ^ v1', '~~v0', '!~!v0', 'v0.v1', '.v0', "'v0"]:
+        s.lex_text(text)
+        s.parse_text(text)
+        M.op('add_expr_text', Text(text))
+        if not s.ok():
+            # dd translates while it parses (see C17): only the outcome is compared
+            s.outcome_only()
+            # the state may now differ from the model's: fresh manager
+            M = Mgr(ctx, None, N, order, session=s)
+        ctx.count('text-adversarial')
+    M.check_table('C05:table')
 
 
 def run(ctx):
@@ -260,3 +334,5 @@ def run(ctx):
     for order in orders:
         random_stream(ctx, order, 12 if q else 150, autoref=False)
         random_stream(ctx, order, 6 if q else 60, autoref=True)
+    for order in (orders[:2] if q else orders):
+        text_stream(ctx, order, 25 if q else 300)
